@@ -104,6 +104,14 @@ func (r *Reader) ReadPacketUsing(buf []byte) (pkt Packet, err error) {
 				r.buf = append(r.buf[:0], r.curr...)
 			}
 
+			// r.buf now holds exactly the bytes of a single incomplete frame. if
+			// that is already more than any acceptable frame, reject it. checking
+			// here rather than after the read keeps the result independent of how
+			// the transport chunks the data: a single read may contain many frames.
+			if len(r.buf)-maxFrameOverhead > r.opts.MaximumBufferSize {
+				return Packet{}, drpc.ProtocolError.New("data overflow")
+			}
+
 			if cap(r.buf)-len(r.buf) < 4096 {
 				nbuf := make([]byte, len(r.buf), 2*cap(r.buf)+4096)
 				copy(nbuf, r.buf)
@@ -120,11 +128,6 @@ func (r *Reader) ReadPacketUsing(buf []byte) (pkt Packet, err error) {
 				return Packet{}, drpc.ProtocolError.New("data overflow")
 			}
 			r.buf = r.buf[:ncap]
-
-			if len(r.buf)-maxFrameOverhead > r.opts.MaximumBufferSize {
-				return Packet{}, drpc.ProtocolError.New("data overflow")
-			}
-
 			r.curr = r.buf
 			continue
 		}
